@@ -1117,6 +1117,10 @@ func (fr *Frame) execTypeAssert(x *ssa.TypeAssert, st *State) Val {
 	} else {
 		panic(outsideSubset{"type assertion to " + x.AssertedType.String()})
 	}
+	if isRefType(x.AssertedType) {
+		// an interface whose dynamic type is a pointer/map type holds a well-typed reference (as for any loaded pointer)
+		st.assume(Implies(ok, wellTyped(res, st)))
+	}
 	if x.CommaOk {
 		z := zeroVal(x.AssertedType)
 		return Val{K: KTuple, T: x.Type(), F: []Val{iteVal(ok, res, z), scalar(ok, types.Typ[types.Bool])}}
